@@ -318,7 +318,7 @@ def unusual_invocations(chk):
         left = unrecorded()
         kept = [d for d in os.listdir(co) if d.startswith("keep.task.")]
         problems = []
-        if rcs != [1, 0, 1, 1] or len(before) != 3 or len(kept) != 1:
+        if [c != 0 for c in rcs] != [True, False, True, True] or any(c < 0 for c in rcs) or len(before) != 3 or len(kept) != 1:
             problems.append("harness: set-up failed (%r, %r, %r)" % (rcs, before, kept))
         else:
             missing = [d for d in before if os.path.basename(d) not in dry.stdout]
